@@ -231,6 +231,15 @@ Theorem C19_collection_kinds : forall f,
   (result_kind f = RKIter <-> f = FSearchAll \/ f = FSearchAllSel).
 Proof. exact collection_kinds_spec. Qed.
 
+(* ---- join / replace(dict) use the context's str conversion (the injected delegate), in every spelling ---- *)
+Theorem C19_join_conv : forall f parts sep s k v rest cnt,
+  join_with f parts sep = join sep (map f parts) /\
+  join_with str_of parts sep = join_scalars parts sep /\
+  replace_dict_with str_of s rest cnt = replace_dict s rest cnt /\
+  replace_dict_with f s ((k, v) :: rest) cnt = replace_dict_with f (str_replace s (f k) (f v) cnt) rest cnt /\
+  (forall g, (forall x, In x parts -> f x = g x) -> join_with f parts sep = join_with g parts sep).
+Proof. exact conv_spec. Qed.
+
 (* ---- _publish_match ------------------------------------------------------------------------------------ *)
 (* after _publish_match m: $1 is the whole match, $(i+2) is group i+1, $name is the record of the
    group of that name; nothing else is published *)
